@@ -10,6 +10,7 @@ package main
 
 import (
 	"fmt"
+	"math"
 	"math/big"
 	"os"
 	"sort"
@@ -24,6 +25,33 @@ import (
 )
 
 func main() { hlib.Main("C14", run) }
+
+// Far placements (scale.go): |offset| ≈ 2^b.  Triangulate / TriangulateFace / the stack algorithm
+// only ever look at coordinate differences (exact here), so any exactly representable offset is a
+// legitimate input: b up to 44 (offset/size up to ~1e12).  TriangulateMesh first rotates the
+// ABSOLUTE coordinates by a fixed angle (misalignMesh), which rounds them to ~2^(b-53): offsets
+// are kept at b ≤ 36 there and, per region, so small that the rounding (≤ 2^(b-52)) is at least 64
+// times below the region's clearance (smallest vertex–edge distance; farPlacedSweep), so that a
+// failure is a failure of the algorithm and not of float64.
+const (
+	farMinBits     = 31
+	farMaxBitsEar  = 44
+	farMaxBitsMesh = 36
+)
+
+// farOrDyadic: the placement of the internals' cases: a third in another dyadic unit, two ninths far.
+func farOrDyadic(c *hlib.Ctx, r *region, maxBits int) {
+	switch c.Rng.Intn(9) {
+	case 0, 1, 2:
+		r.sc = pickDyadic(c.Rng)
+	case 3, 4:
+		if fr := farPlacedSweep(c.Rng, r, farMinBits, maxBits); fr != nil {
+			r.sc = fr.sc
+		} else {
+			c.Stat("far.skipped-small-clearance", 1)
+		}
+	}
+}
 
 const watchdog = 20 * time.Second
 
@@ -46,7 +74,13 @@ type region struct {
 }
 
 func (r *region) coord(p ipt) model2d.Coord {
-	return model2d.XY(r.sc.apply(float64(p.x)/float64(r.den)), r.sc.apply(float64(p.y)/float64(r.den)))
+	if r.sc.th != 0 {
+		// arbitrary rotation (rounded), then the non-dyadic factor (rounded)
+		x, y := float64(p.x)/float64(r.den), float64(p.y)/float64(r.den)
+		cs, sn := math.Cos(r.sc.th), math.Sin(r.sc.th)
+		return model2d.XY(r.sc.apply(x*cs-y*sn), r.sc.apply(x*sn+y*cs))
+	}
+	return model2d.XY(r.sc.applyX(float64(p.x)/float64(r.den)), r.sc.applyY(float64(p.y)/float64(r.den)))
 }
 
 func (r *region) all() []ipt {
@@ -97,6 +131,9 @@ func (r *region) headerZ(zs []float64) string {
 			fmt.Fprintf(&sb, " Z %s %s", ints[k].String(), ints[k+1].String())
 		}
 		return sb.String()
+	}
+	if r.sc.far() {
+		fmt.Fprintf(&sb, "O %d %d ", r.sc.ox, r.sc.oy)
 	}
 	if r.sc.k != 0 {
 		fmt.Fprintf(&sb, "S %d ", r.sc.k)
@@ -301,6 +338,9 @@ func genPoly(c *hlib.Ctx, maxN int) ([]ipt, string) {
 			// quadrilaterals and pentagons (a third of random quads are concave "darts"): the
 			// vertex counts where special-cased fast paths live
 			p, fam = gen2opt(r, 1+r.Int63n(12), 4+r.Intn(2)), "quad-pent"
+			if r.Intn(3) == 0 {
+				p, fam = genDart(r), "dart"
+			}
 		case 0:
 			p, fam = genConvex(r, 8+r.Int63n(40), 3+r.Intn(maxN)), "convex"
 		case 1:
@@ -342,6 +382,7 @@ func runEar(c *hlib.Ctx, n int) {
 		den := randDen(c)
 		rg := rigids(c.Rng)
 		m := rg[c.Rng.Intn(len(rg))]
+		c.Stat("ear.rigid."+m.name, 1)
 		p = mapPts(p, m.f)
 		// every rotation of the start vertex (sampled when the polygon is large), both orders
 		rots := make([]int, 0)
@@ -357,7 +398,10 @@ func runEar(c *hlib.Ctx, n int) {
 		// the polygon at unit scale, then the same polygon in another unit of length
 		base := &region{den: den, loops: [][]ipt{p}}
 		pl := placed(c.Rng, base, true, false)
-		for _, rr := range []*region{base, pl} {
+		// … and the same polygon far from the origin (any rigid placement): Triangulate works on
+		// coordinate differences only, which are exact for these inputs, so every offset is legitimate
+		fr := farPlaced(c.Rng, base, farMinBits, farMaxBitsEar)
+		for _, rr := range []*region{base, pl, fr} {
 			c.Stat("ear.scale."+rr.sc.name(), 1)
 			pp := rr.loops[0]
 			for _, k := range rots {
@@ -526,8 +570,15 @@ func runMesh(c *hlib.Ctx, n int) {
 		}
 		rg := rigids(c.Rng)
 		r = r.mapped(rg[c.Rng.Intn(len(rg))])
-		if c.Rng.Intn(2) == 0 {
+		switch c.Rng.Intn(4) {
+		case 0, 1:
 			r = placed(c.Rng, r, true, true)
+		case 2:
+			if fr := farPlacedSweep(c.Rng, r, farMinBits, farMaxBitsMesh); fr != nil {
+				r = fr
+			} else {
+				c.Stat("far.skipped-small-clearance", 1)
+			}
 		}
 		c.Stat("mesh.scale."+r.sc.name(), 1)
 		m := r.mesh()
@@ -611,9 +662,7 @@ func runSingle(c *hlib.Ctx, n int) {
 		if r == nil {
 			continue
 		}
-		if c.Rng.Intn(3) == 0 {
-			r.sc = pickDyadic(c.Rng)
-		}
+		farOrDyadic(c, r, farMaxBitsMesh)
 		c.Stat("single.scale."+r.sc.name(), 1)
 		segs := r.segs()
 		res := call2d(r, func() [][3]model2d.Coord { return model2d.VerifTriangulateSingleMesh(segs) })
@@ -629,9 +678,8 @@ func runMono(c *hlib.Ctx, n int) {
 			continue
 		}
 		r := &region{den: randDen(c), loops: [][]ipt{p}}
-		if c.Rng.Intn(3) == 0 {
-			r.sc = pickDyadic(c.Rng)
-		}
+		farOrDyadic(c, r, farMaxBitsMesh)
+		c.Stat("mono.scale."+r.sc.name(), 1)
 		segs := r.segs()
 		res := call2d(r, func() [][3]model2d.Coord { return model2d.VerifTriangulateMonotoneMesh(segs) })
 		statRes(c, "mono", r, res)
@@ -650,9 +698,8 @@ func runVType(c *hlib.Ctx, n int) {
 		if r == nil {
 			continue
 		}
-		if c.Rng.Intn(3) == 0 {
-			r.sc = pickDyadic(c.Rng)
-		}
+		farOrDyadic(c, r, farMaxBitsMesh)
+		c.Stat("vtype.scale."+r.sc.name(), 1)
 		segs := r.segs()
 		ids := r.ids()
 		impl := guarded(func() string {
@@ -699,9 +746,8 @@ func runSplits(c *hlib.Ctx, n int) {
 		if r == nil {
 			continue
 		}
-		if c.Rng.Intn(3) == 0 {
-			r.sc = pickDyadic(c.Rng)
-		}
+		farOrDyadic(c, r, farMaxBitsMesh)
+		c.Stat("splits.scale."+r.sc.name(), 1)
 		segs := r.segs()
 		ids := r.ids()
 		impl := guarded(func() string {
@@ -731,8 +777,11 @@ func runEarSeq(c *hlib.Ctx, n int) {
 		}
 		p = rotated(p, c.Rng.Intn(len(p)))
 		r := &region{den: randDen(c), loops: [][]ipt{p}}
-		if c.Rng.Intn(2) == 0 {
+		switch c.Rng.Intn(3) {
+		case 0:
 			r.sc = pickDyadic(c.Rng)
+		case 1:
+			r.sc = farPlaced(c.Rng, r, farMinBits, farMaxBitsEar).sc
 		}
 		c.Stat("earseq.scale."+r.sc.name(), 1)
 		poly := make([]model2d.Coord, len(p))
@@ -784,6 +833,9 @@ func runFace(c *hlib.Ctx, n int) {
 			// polygonal files), convex and concave
 			for {
 				p, fam = gen2opt(c.Rng, 1+c.Rng.Int63n(12), 4+c.Rng.Intn(2)), "quad-pent"
+				if c.Rng.Intn(3) == 0 {
+					p, fam = genDart(c.Rng), "dart"
+				}
 				if isSimple(p) {
 					break
 				}
@@ -815,12 +867,25 @@ func runFace(c *hlib.Ctx, n int) {
 		e := es[ei]
 		c.Stat("face.emb."+e.name, 1)
 		c.Stat("face.scale."+sc.name(), 1)
+		// far placement in space (a third of the exactly representable cases): the lattice integers
+		// are shifted by up to 2^44 lattice units per axis; still exact in float64 (< 2^53), so the
+		// face is exactly the translated planar simple polygon
+		var far [3]int64
+		if sc.f == 0 && c.Rng.Intn(3) == 0 {
+			fx, fy := pickFar(c.Rng, farMinBits, farMaxBitsEar)
+			fz, _ := pickFar(c.Rng, farMinBits, farMaxBitsEar)
+			far = [3]int64{fx, fy, fz}
+			c.Stat("face.far", 1)
+		}
 		pts := make([][3]int64, len(p))
 		poly := make([]model3d.Coord3D, len(p))
 		ids := map[model3d.Coord3D]int{}
 		var vals []float64
 		for j, q := range p {
 			pts[j] = e.f(q)
+			for a := 0; a < 3; a++ {
+				pts[j][a] += far[a]
+			}
 			poly[j] = model3d.XYZ(sc.apply(float64(pts[j][0])/float64(den)), sc.apply(float64(pts[j][1])/float64(den)),
 				sc.apply(float64(pts[j][2])/float64(den)))
 			ids[poly[j]] = j
@@ -911,28 +976,91 @@ func runFace(c *hlib.Ctx, n int) {
 // ---------------------------------------------------------------------------
 // ProfileMesh: closed manifold, volume = area * height
 
+// pickZ: the extrusion range.  mode 0: lattice values z/den in the region's unit (as the outline's
+// coordinates); mode 1: decimal values as a user types them (-0.7, 0.1, -12.5 …); mode 2: arbitrary
+// float64 values with full mantissas.  Half of the non-lattice ranges are mirrored to lie mostly
+// below zero.  minZ < maxZ always.  Non-lattice ranges are written exactly (`ZQ num/den num/den`).
+func pickZ(c *hlib.Ctx, r *region) (fz0, fz1 float64, lattice bool, z0, z1 int64) {
+	rng := c.Rng
+	mode := rng.Intn(3)
+	if mode == 0 {
+		z0 = rng.Int63n(17) - 8
+		z1 = z0 + 1 + rng.Int63n(9)
+		c.Stat("profile.z.lattice", 1)
+		return r.sc.apply(float64(z0) / float64(r.den)), r.sc.apply(float64(z1) / float64(r.den)), true, z0, z1
+	}
+	for {
+		var a, b float64
+		if mode == 1 {
+			dec := func() float64 {
+				d := []float64{10, 100, 1000}[rng.Intn(3)]
+				return float64(rng.Int63n(int64(15*d))-int64(5*d)) / d
+			}
+			a, b = dec(), dec()
+		} else {
+			rnd := func() float64 {
+				v := math.Ldexp(1+rng.Float64(), rng.Intn(13)-8)
+				if rng.Intn(2) == 0 {
+					v = -v
+				}
+				return v
+			}
+			a, b = rnd(), rnd()
+		}
+		if a == b {
+			continue
+		}
+		if a > b {
+			a, b = b, a
+		}
+		if rng.Intn(2) == 0 && math.Abs(a) < math.Abs(b) {
+			a, b = -b, -a
+		}
+		if mode == 1 {
+			c.Stat("profile.z.decimal", 1)
+		} else {
+			c.Stat("profile.z.float", 1)
+		}
+		if a+(b-a) != b {
+			c.Stat("profile.z.roundtrip-inexact", 1)
+		}
+		return a, b, false, 0, 0
+	}
+}
+
 func runProfile(c *hlib.Ctx, n int) {
 	for i := 0; i < n; i++ {
 		r := genRegion(c, 1+c.Rng.Intn(4))
-		if c.Rng.Intn(2) == 0 {
+		switch c.Rng.Intn(4) {
+		case 0, 1:
 			r = placed(c.Rng, r, true, true)
+		case 2:
+			if fr := farPlacedSweep(c.Rng, r, farMinBits, farMaxBitsMesh); fr != nil {
+				r = fr
+			} else {
+				c.Stat("far.skipped-small-clearance", 1)
+			}
 		}
 		c.Stat("profile.scale."+r.sc.name(), 1)
-		z0 := c.Rng.Int63n(17) - 8
-		z1 := z0 + 1 + c.Rng.Int63n(9)
+		fz0, fz1, lattice, z0, z1 := pickZ(c, r)
 		m2 := r.mesh()
 		ids := r.ids()
-		fz0, fz1 := r.sc.apply(float64(z0)/float64(r.den)), r.sc.apply(float64(z1)/float64(r.den))
 		var tris []itri
 		fail := guarded(func() string {
 			m := model3d.ProfileMesh(m2, fz0, fz1)
-			bad := false
+			foreign, offCaps := false, 0
+			var offZ float64
 			m.Iterate(func(t *model3d.Triangle) {
 				var it itri
 				for k := 0; k < 3; k++ {
 					id, ok := ids[model2d.XY(t[k].X, t[k].Y)]
-					if !ok || (t[k].Z != fz0 && t[k].Z != fz1) {
-						bad = true
+					if !ok {
+						foreign = true
+						continue
+					}
+					if t[k].Z != fz0 && t[k].Z != fz1 {
+						offCaps++
+						offZ = t[k].Z
 						continue
 					}
 					it[k] = 2 * id
@@ -942,64 +1070,70 @@ func runProfile(c *hlib.Ctx, n int) {
 				}
 				tris = append(tris, it)
 			})
-			if bad {
+			if foreign {
 				return "foreign-vertex"
+			}
+			if offCaps > 0 {
+				// vertices that are neither at minZ nor at maxZ: report them together with the number of
+				// directed edges of the real mesh that have no opposite (exact Coord3D comparison)
+				type de [2]model3d.Coord3D
+				cnt := map[de]int{}
+				m.Iterate(func(t *model3d.Triangle) {
+					for k := 0; k < 3; k++ {
+						cnt[de{t[k], t[(k+1)%3]}]++
+					}
+				})
+				open := 0
+				for e, k := range cnt {
+					if cnt[de{e[1], e[0]}] != k {
+						open++
+					}
+				}
+				return fmt.Sprintf("vertex-off-caps corners=%d z=%s unmatched-directed-edges=%d", offCaps, hlib.Hex(offZ), open)
 			}
 			return ""
 		})
 		c.Stat("profile.cases", 1)
 		var op string
-		if r.sc.f != 0 {
+		switch {
+		case r.sc.f != 0:
 			op = fmt.Sprintf("c14 profile %s ", r.headerZ([]float64{fz0, fz1}))
-		} else {
+		case lattice:
 			op = fmt.Sprintf("c14 profile %s Z %d %d ", r.header(), z0, z1)
+		default:
+			op = fmt.Sprintf("c14 profile %s ZQ %s %s ", r.header(),
+				showRatFull(new(big.Rat).SetFloat64(fz0)), showRatFull(new(big.Rat).SetFloat64(fz1)))
 		}
 		if fail != "" {
-			c.Emit(op+"T x", fail)
+			c.Stat("profile.fail", 1)
+			if strings.HasPrefix(fail, "vertex-off-caps") || fail == "foreign-vertex" {
+				c.Emit(op+"T f", fail)
+			} else {
+				c.Emit(op+"T x", fail)
+			}
 			continue
 		}
 		tris = canonTris(tris, true)
-		var vol *big.Rat
-		if r.sc.f != 0 {
-			// exact signed volume of the soup on the rounded float64 inputs
-			ex := r.exactPts()
-			q0, q1 := new(big.Rat).SetFloat64(fz0), new(big.Rat).SetFloat64(fz1)
-			p3 := func(id int) [3]*big.Rat {
-				z := q0
-				if id%2 == 1 {
-					z = q1
-				}
-				return [3]*big.Rat{ex[id/2][0], ex[id/2][1], z}
+		// exact signed volume of the real soup on the float64 inputs: Σ det(a,b,c)/6 in Q
+		ex := r.exactPts()
+		q0, q1 := new(big.Rat).SetFloat64(fz0), new(big.Rat).SetFloat64(fz1)
+		p3 := func(id int) [3]*big.Rat {
+			z := q0
+			if id%2 == 1 {
+				z = q1
 			}
-			mul := func(a, b *big.Rat) *big.Rat { return new(big.Rat).Mul(a, b) }
-			sub := func(a, b *big.Rat) *big.Rat { return new(big.Rat).Sub(a, b) }
-			s := new(big.Rat)
-			for _, t := range tris {
-				a, b, cc := p3(t[0]), p3(t[1]), p3(t[2])
-				s.Add(s, mul(a[0], sub(mul(b[1], cc[2]), mul(b[2], cc[1]))))
-				s.Sub(s, mul(a[1], sub(mul(b[0], cc[2]), mul(b[2], cc[0]))))
-				s.Add(s, mul(a[2], sub(mul(b[0], cc[1]), mul(b[1], cc[0]))))
-			}
-			vol = s.Quo(s, big.NewRat(6, 1))
-		} else {
-			// exact signed volume: sum det(a,b,c)/6 in lattice units / den^3
-			all := r.all()
-			var s int64
-			p3 := func(id int) [3]int64 {
-				z := z0
-				if id%2 == 1 {
-					z = z1
-				}
-				return [3]int64{all[id/2].x, all[id/2].y, z}
-			}
-			for _, t := range tris {
-				a, b, cc := p3(t[0]), p3(t[1]), p3(t[2])
-				s += a[0]*(b[1]*cc[2]-b[2]*cc[1]) - a[1]*(b[0]*cc[2]-b[2]*cc[0]) + a[2]*(b[0]*cc[1]-b[1]*cc[0])
-			}
-			d3 := new(big.Int).Mul(big.NewInt(6), new(big.Int).Mul(big.NewInt(r.den), new(big.Int).Mul(big.NewInt(r.den), big.NewInt(r.den))))
-			vol = new(big.Rat).SetFrac(big.NewInt(s), d3)
-			vol.Mul(vol, r.sc.dyadicPow(3))
+			return [3]*big.Rat{ex[id/2][0], ex[id/2][1], z}
 		}
+		mul := func(a, b *big.Rat) *big.Rat { return new(big.Rat).Mul(a, b) }
+		sub := func(a, b *big.Rat) *big.Rat { return new(big.Rat).Sub(a, b) }
+		s := new(big.Rat)
+		for _, t := range tris {
+			a, b, cc := p3(t[0]), p3(t[1]), p3(t[2])
+			s.Add(s, mul(a[0], sub(mul(b[1], cc[2]), mul(b[2], cc[1]))))
+			s.Sub(s, mul(a[1], sub(mul(b[0], cc[2]), mul(b[2], cc[0]))))
+			s.Add(s, mul(a[2], sub(mul(b[0], cc[1]), mul(b[1], cc[0]))))
+		}
+		vol := s.Quo(s, big.NewRat(6, 1))
 		c.Emit(op+trisField(tris), fmt.Sprintf("ok vol=%s n=%d", showRatFull(vol), len(tris)))
 	}
 }
